@@ -1417,6 +1417,19 @@ impl Sim {
                         em.despawn();
                     }
                 }
+                // `disconnect c slow`: the backend first reports Connecting (it retries) for one client frame, then gives up
+                // (invisible to the model); only when no client-side operation is pending
+                if t.get(2) == Some(&"slow") && self.clients[c].app.world().resource::<PendingCops>().0.is_empty()
+                    && self.clients[c].app.world().resource::<RepliconClient>().is_connected()
+                {
+                    self.clients[c].app.world_mut().resource_mut::<RepliconClient>().set_status(RepliconClientStatus::Connecting);
+                    if catch_unwind(AssertUnwindSafe(|| self.clients[c].app.update())).is_err() {
+                        self.dead = Some(format!("client {c}"));
+                        out.push(format!("PANIC client {c}"));
+                        return;
+                    }
+                    let _ = self.clients[c].app.world_mut().resource_mut::<RepliconClient>().drain_sent().count();
+                }
                 self.clients[c].app.world_mut().resource_mut::<RepliconClient>().set_status(RepliconClientStatus::Disconnected);
                 let slot = &mut self.clients[c];
                 for q in slot.s2c.iter_mut().chain(slot.c2s.iter_mut()) {
